@@ -248,6 +248,10 @@ type IndexExpr struct {
 	Index    []*Node // int float string bool
 	LBracket []token.LnColPos
 	RBracket []token.LnColPos
+
+	// Dot is the position of the leading '.' of the root-less form `.[i]`
+	// (the zero value when the expression has an object).
+	Dot token.LnColPos
 }
 
 func (e *IndexExpr) IsExpr() bool {
